@@ -4,6 +4,7 @@ import VelaVerif.Gen.Caches
 import VelaVerif.Lemmas.Caches
 import VelaVerif.Lemmas.EmitOrder
 import VelaVerif.Lemmas.KeyRename
+import VelaVerif.Model.CacheWitnesses
 /-!
 # C14 — compilation is deterministic and independent of process history
 
@@ -87,21 +88,6 @@ theorem history_keeps_tables_consistent {ρ ω : Type} (F : Store → PKey → V
 
 /-! ### non-vacuity: a compilation shaped like the real one meets the hypothesis -/
 
-/-- request = (accelerator, weights digest). Weights read from the file get a fresh `value_id` (`loc 0`): the weight
-cache key is local; the default architecture is looked up by accelerator and its value depends on nothing else;
-the tensor gets an address under its own fresh identity (`loc 1`). -/
-def convProg (rq : Nat × Nat) : Prog (List Nat) :=
-  .memo .arch [.lit rq.1] (500 + rq.1) fun arch =>
-  .memo .weights [.lit 1, .lit 16, .lit 99, .lit 1, .loc 0] (rq.1 * 1000 + rq.2) fun enc =>
-  .memo .weights [.lit 1, .lit 16, .lit 99, .lit 1, .loc 0] (rq.1 * 1000 + rq.2 + 7) fun enc2 =>
-  .assign [.loc 1, .lit 0] (64 + enc % 16) <|
-  .log enc <|
-  .ret [arch, enc, enc2]
-
-def convF : Store → PKey → Val
-  | .arch, [.lit a] => 500 + a
-  | _, _ => 0
-
 theorem convProg_sufficient (rq : Nat × Nat) : Suff convF true (convProg rq) := by
   refine .memo _ _ _ _ (fun _ => rfl) fun arch => ?_
   refine .memo _ _ _ _ (fun h => by simp [isLocal, Atom.isLoc] at h) fun enc => ?_
@@ -119,11 +105,6 @@ example (h : List (Entry × (Nat × Nat))) (e : Entry) (rq : Nat × Nat) :
   history_independent convF convProg convProg_sufficient h e rq
 
 /-! ### where the unchanged code does not meet the hypothesis -/
-
-/-- MEAN on the NPU: the all-ones weights get `value_id = create_equivalence_id(ones)`, a *global* identity, and the
-encoded stream stored under the key depends on the accelerator, which is not a key field. -/
-def meanProg (accelerator : Nat) : Prog Nat :=
-  .memo .weights [.lit 1, .lit 16, .lit 99, .lit 1, .memo 1024] (1000 + accelerator) fun enc => .ret enc
 
 /-- the same model under another accelerator, second in the process, is given the first accelerator's weight stream —
 even through `convert_bytes`, which resets everything vela ever resets.
@@ -146,10 +127,6 @@ theorem weight_cache_key_no_value_function_witness : ¬ ∃ F, ∀ r, Suff F fal
       rw [← e0] at e1
       cases e1
 
-/-- a constant whose identity is memoised by value (LUT table, PAD border, MEAN weights, zero bias) receives the
-address `rq` -/
-def lutProg (rq : Nat) : Prog Nat := .assign [.memo 7, .lit 0] rq (.ret rq)
-
 /-- `main(A); main(B)`: the second compilation dies on "Two different addresses cannot be assigned to the same
 tensor" although it succeeds in a fresh process. Replayed: known finding
 `AssertionError@tensor.set_address_for_tens:stale-address-of-memoised-equivalence-id`. -/
@@ -165,19 +142,11 @@ theorem convert_keeps_addresses_witness :
 `history_independent_after_convert_bytes`) -/
 example : (compile lutProg .convertBytes (after lutProg [(.convertBytes, 1)] init) 2).1 = some 2 := by decide
 
-/-- `--enable-debug-db`: the rows of the tables go to `_debug.xml` -/
-def dbgProg (rq : Nat) : Prog (List Nat) := .log rq (.dump fun rows => .ret rows)
-
 /-- `main` never cleans the database: the second `_debug.xml` also holds the first compilation's rows.
 Replayed: known finding `DebugDatabase-not-cleared-by-main`. -/
 theorem debug_db_leaks_through_main_witness :
     (compile dbgProg .main (after dbgProg [(.main, 1)] init) 2).1 = some [1, 2] ∧
     (compile dbgProg .main init 2).1 = some [2] := by decide
-
-/-- a compilation that dies between giving a memoised identity its address and the end (`true`), then an ordinary one -/
-def crashProg : Bool × Nat → Prog Nat
-  | (true, r) => .assign [.memo 7] r (.assign [.memo 7] (r + 1) (.ret r))
-  | (false, r) => .assign [.memo 7] r (.ret r)
 
 /-- the clean-up of `convert_bytes` sits after the compilation, not in a `finally`: an escaping exception skips it and
 the next `convert_bytes` inherits the address map. Model-level witness only: the harness runs crashing compilations
